@@ -83,6 +83,8 @@ def check(ctx):
         check_protoinfo_coherence(ctx, tu)
         check_processif_levels(ctx, tu)
         check_keepalive(ctx, tu)
+        from .listrules import check_invoked_in_place
+        check_invoked_in_place(ctx, tu, 'C14.F', lambda o: o.cls in ('HeterCallbackListBase', 'HeterEventDispatcherBase', 'HeterEventQueueBase'))
         from .c04 import check_listener_management
         check_listener_management(ctx, tu, 'HeterEventDispatcherBase', 'C14.F')
         check_heter_list_ops(ctx, tu, info)
@@ -98,6 +100,7 @@ def check(ctx):
                 ctx.ob('C14.M', f, 'arguments are never read after (or unsequenced with) being moved from', not vs,
                        detail='\n'.join(v['msg'] for v in vs[:3]), key_detail='move ' + ','.join(names),
                        where=f.nloc(vs[0]['site']['consumer']) if vs else None)
+    witness.check_static_unit(ctx, 'C14.H1', os.path.join(extract.VERIF, 'witness', 's_meta.cpp'), 'CanInvoke / tuple helpers', tag='C14')
     ctx.require_min('C14.H2', 1)
     ctx.require_min('C14.H3', 4)
     ctx.require_min('C14.H4', 2)
